@@ -132,7 +132,7 @@ class Fuzzer:
         for r in self.w.engine.tables['attempts'].rows:
             key = (r['batch_id'], r['job_id'], r['attempt_id'])
             if key not in self.attempts:
-                j = self.w.engine.tables['jobs'].uidx[0].get((r['batch_id'], r['job_id']))
+                j = self.w.engine.tables['jobs'].pk_get(r['batch_id'], r['job_id'])
                 self.attempts[key] = {
                     'batch_id': r['batch_id'], 'job_id': r['job_id'], 'attempt_id': r['attempt_id'],
                     'job_group_id': j['job_group_id'] if j else 0, 'instance_name': r['instance_name'], 'worker_accepted': False,
@@ -487,7 +487,7 @@ class Fuzzer:
             open_keys = []
             at = self.w.engine.tables['attempts']
             for k in keys:
-                r = at.uidx[0].get(k)
+                r = at.pk_get(*k)
                 if r is None or r['end_time'] is None:
                     open_keys.append(k)
             if open_keys:
@@ -501,13 +501,13 @@ class Fuzzer:
     def _worker_request(self, inst, body):
         """a request as the worker on `inst` sends it: identity headers carry the instance's real token, so the
         repository's own @active_instances_only decides whether the message is admissible"""
-        row = self.w.engine.tables['instances'].uidx[0].get((inst.name,))
+        row = self.w.engine.tables['instances'].pk_get(inst.name)
         req = FakeRequest(self.w.dr_app, body)
         req.headers = {'X-Hail-Instance-Name': inst.name, 'X-Hail-Instance-Token': row['token'] if row else 'none'}
         return req
 
     def _resources(self, a):
-        j = self.w.engine.tables['jobs'].uidx[0].get((a['batch_id'], a['job_id']))
+        j = self.w.engine.tables['jobs'].pk_get(a['batch_id'], a['job_id'])
         cores = j['cores_mcpu'] if j else 1000
         res = [{'name': 'compute/n1-preemptible/1', 'quantity': cores}, {'name': 'memory/n1-preemptible/1', 'quantity': cores * 4},
                {'name': 'compute/n1-preemptible/2', 'quantity': 7}]
@@ -562,7 +562,7 @@ class Fuzzer:
         a = self._pick_attempt()
         if a is None or a.get('instance_name') is None:
             return None
-        if self.w.engine.tables['attempts'].uidx[0].get((a['batch_id'], a['job_id'], a['attempt_id'])) is None:
+        if self.w.engine.tables['attempts'].pk_get(a['batch_id'], a['job_id'], a['attempt_id']) is None:
             return None
         from batch.driver.job import unschedule_job
 
